@@ -58,6 +58,48 @@ def search(seed=0, max_calls=6):
                             n_therm_calls = 3 if skip else 0
                             if where == "update" and kind == "interrupt" and skip and at < n_therm_calls and len(steps) > 0:
                                 bad.append(dict(case, problem=f"cancelled during thermalisation but frames {steps} were recorded afterwards"))
+    b2, n2 = solve_cases()
+    return bad + b2, n + n2
+
+
+def solve_cases():
+    """real tdgl.solve into a path where a file (an earlier solution) already exists: the old file keeps its bytes, the new run goes to a fresh
+    name, and the returned Solution is the new run"""
+    import hashlib
+    import logging
+    import numpy as np
+    logging.disable(logging.CRITICAL)
+    import h5py
+    import tdgl
+    from checks import update_native
+    dev = update_native.device()
+    bad, n = [], 0
+    td = tempfile.mkdtemp(prefix="pyvc_c15s_")
+    try:
+        p0 = os.path.join(td, "run.h5")
+        first = tdgl.solve(dev, tdgl.SolverOptions(solve_time=0.4, output_file=p0, save_every=10, adaptive=False, dt_init=1e-2), applied_vector_potential=0.1)
+        digest = hashlib.sha256(open(p0, "rb").read()).hexdigest()
+        second = tdgl.solve(dev, tdgl.SolverOptions(solve_time=0.2, output_file=p0, save_every=10, adaptive=False, dt_init=1e-2), applied_vector_potential=0.3)
+        n += 1
+        case = dict(existing_file="run.h5 (earlier solution, 40 steps)", new_run="20 steps")
+        if hashlib.sha256(open(p0, "rb").read()).hexdigest() != digest:
+            bad.append(dict(case, problem="the pre-existing file at the output path was modified"))
+        if os.path.abspath(second.path) == os.path.abspath(p0):
+            bad.append(dict(case, problem="the returned solution points at the pre-existing file, not at the file of this run", path=second.path))
+        else:
+            try:
+                back = tdgl.Solution.from_hdf5(second.path)
+                if back.data_range[1] != 2 or second.data_range[1] != 2 or first.data_range[1] != 4:
+                    bad.append(dict(case, problem=f"the solution of the new run reports frames up to {second.data_range[1]} / reloads up to {back.data_range[1]} (expected 2: steps 0, 10, 20)"))
+            except Exception as e:  # noqa
+                bad.append(dict(case, problem=f"the file of the new run cannot be loaded as a solution: {type(e).__name__}: {str(e)[:100]}"))
+        left = sorted(f for f in os.listdir(td) if f.endswith(".tmp"))
+        if left:
+            bad.append(dict(case, problem=f"temporary files remain: {left}"))
+    finally:
+        import shutil
+        shutil.rmtree(td, ignore_errors=True)
+        logging.disable(logging.NOTSET)
     return bad, n
 
 
@@ -66,7 +108,7 @@ def replay(unit, obl):
     bad, n = search(0, 5)
     if bad:
         name = (obl or {}).get("name", "")
-        kw = ("propagate",) if "propagates" in name else ("distinct",) if "records_once" in name else ("temporary", "unexpected files") if ("leak" in name or "exit" in name or "enter" in name) else (("thermalisation",) if "thermalisation" in name or "cancel" in name else ())
+        kw = ("pre-existing", "returned solution", "new run") if "solve_paths" in name else ("propagate",) if "propagates" in name else ("distinct",) if "records_once" in name else ("temporary", "unexpected files") if ("leak" in name or "exit" in name or "enter" in name) else (("thermalisation",) if "thermalisation" in name or "cancel" in name else ())
         pick = next((b for b in bad if any(w in b["problem"] for w in kw)), bad[0])
         return dict(confirmed=True, failing_input=pick, n_failing=len(bad), evaluations=n, tdgl_file=tdgl.__file__,
                     note="faults injected at every call index of short real runs (real h5py files)")
